@@ -15,7 +15,7 @@ _common = dict(
     driver="service",
     coq_targets=["Service/Check.vo", "Service/Proofs.vo", "Service/ProofsHist.vo", "Service/ProofsEscrow.vo", "Service/ProofsSched.vo", "Service/ProofsBatch.vo", "Service/ProofsLiab.vo", "Service/ProofsTally.vo"],
     check_module="Service.Check",
-    streams=[dict(name="main", quick=128, thorough=4000)],
+    streams=[dict(name="main", quick=96, thorough=4000)],
     coq_shard=12,
     trusted_base=["request-context ids = tx hash || per-block index, request ids = context id || batch || height || index: "
                   "identified with their pre-images (the harness checks the id returned by CallService starts with the tx hash)",
